@@ -32,9 +32,9 @@ def canon(t, anon=False, top=True):
         if "selfname" in t:
             return {"k": "ptr", "target": {"k": "ref", "name": t["selfname"]}}
         tg = t["target"]
-        if tg["k"] in ("struct", "union") and not tg.get("_anon"):
+        if tg["k"] in ("struct", "union") and not tg.get("_anon") and not anon:
             return {"k": "ptr", "target": {"k": "ref", "name": tg["name"]}}
-        return {"k": "ptr", "target": canon(tg, top=False)}
+        return {"k": "ptr", "target": canon(tg, anon=anon, top=False)}
     if k == "arr":
         ln = t["len"]
         if ln["k"] == "fixed":
@@ -43,7 +43,7 @@ def canon(t, anon=False, top=True):
             l2 = {"k": "expr", "text": A.render_expr(ln["e"]).replace(" ", "")}
         else:
             l2 = {"k": ln["k"]}
-        return {"k": "arr", "elem": canon(t["elem"], top=False), "len": l2}
+        return {"k": "arr", "elem": canon(t["elem"], anon=anon, top=False), "len": l2}
     if k in ("struct", "union"):
         return {"k": k, "name": "" if anon else t["name"],
                 "fields": [{"name": "" if f.get("anon") else f["name"], "type": canon(f["type"], anon=bool(f.get("anon") or f.get("inline")), top=False),
